@@ -38,10 +38,14 @@ PeerEndsByItself == /\ alive /\ ~termSent
                     /\ alive' = FALSE
                     /\ UNCHANGED <<termSent, killed, pipesOpen, waited, result, done, doneCount, aborts, clock, armed, fired, reads>>
 
+ExecKillDue == termSent /\ clock >= 1 /\ ~waited /\ (alive \/ pipesOpen)
 \* timing assumption that defines "polite": it reacts to SIGTERM, and the exec layer reaps it, well
 \* within one grace period
+\* ... and the exec layer's deadline (WaitDelay, one grace period after the cancel) comes before the watchdog's
+\* give-up deadline (two grace periods): time does not pass the first deadline with the kill still outstanding
 Tick == /\ armed /\ ~done /\ clock < 2
         /\ ~(Kind = "polite" /\ termSent /\ ~waited)
+        /\ ~(clock = 1 /\ ExecKillDue)
         /\ clock' = clock + 1
         /\ UNCHANGED <<alive, termSent, killed, pipesOpen, waited, result, done, doneCount, aborts, armed, fired, reads>>
 
@@ -87,6 +91,13 @@ CallbacksAfterDone == \A c \in Callbacks : fired[c] = 1 => done
 BoundedStop == (armed /\ clock >= 2) => (done \/ ENABLED GiveUp \/ ENABLED WaitReturns)
 StopsAfterAbort == (aborts > 0) ~> done
 CallbacksEventually == (aborts > 0) ~> (\A c \in Callbacks : fired[c] = 1)
+\* once cmd.Wait has returned our ends of the pipes are closed: a runner goroutine that still writes to the
+\* peer's stdin gets an error instead of waiting for a reader that no longer exists (bound by the process kind
+\* selfexit-unread: the peer ends without reading, the harness writes 1 MiB)
+PipesClosedWhenGone == waited => ~pipesOpen
+\* whatever result() reports - also when the runner gave up waiting - the peer process itself is gone by then: a
+\* server slot is released, and the run ends, only with the process dead (Runner.tla's Release assumes it)
+GoneWhenDone == done => ~alive
 \* a cooperative peer is never reported as having taken too long
 PoliteNeverTooLong == (Kind = "polite") => result # "took-too-long"
 =============================================================================
